@@ -31,9 +31,61 @@ def config_literal(b):
     return None, None
 
 
-def run(cx):
+def inst_config_mirror(cx, iid):
     R = cx.R
-    with cx.instance("C07.a", "T1 GUARD", "server: State::Active, Connect and active_clients.push require Pending and nonce_ack == local_nonce", floor=3) as inst:
+    with cx.instance(iid, "T4 SIBLING (mirror table)", "the half_connection::Config built by client and server are mirror images", floor=2) as inst:
+        lc, c = config_literal(R.body(CSA))
+        ls, s = config_literal(R.body(ACK))
+        if not c or not s:
+            inst.violation("<crate>", "half_connection::Config", "Config literal not found in both handshake handlers (anchor)")
+        else:
+            inst.site(R.body(CSA), lc, "client Config", c)
+            inst.site(R.body(ACK), ls, "server Config", s)
+            st = r"[\w:.@\[\](),]*\.state@Pending\.0"
+            exp_c = {
+                "tx_frame_base_id": r"arg1\.state@Pending\.0\.local_nonce", "rx_frame_base_id": r"arg2\.nonce",
+                "tx_packet_base_id": rx_comm("bitand", r"arg1\.state@Pending\.0\.local_nonce", r"packet_id::MASK"),
+                "rx_packet_base_id": rx_comm("bitand", r"arg2\.nonce", r"packet_id::MASK"),
+                "tx_bandwidth_limit": rx_comm("Ord::min", r"cast<u32>\(arg1\.config\.endpoint_config\.max_send_rate\)", r"arg2\.max_receive_rate"),
+                "tx_alloc_limit": r"cast<usize>\(arg2\.max_receive_alloc\)", "rx_alloc_limit": r"arg1\.config\.endpoint_config\.max_receive_alloc",
+                "tx_frame_window_size": "MAX_FRAME_WINDOW_SIZE", "rx_frame_window_size": "MAX_FRAME_WINDOW_SIZE",
+                "tx_packet_window_size": "MAX_PACKET_WINDOW_SIZE", "rx_packet_window_size": "MAX_PACKET_WINDOW_SIZE",
+            }
+            exp_s = {
+                "tx_frame_base_id": st + r"\.local_nonce", "rx_frame_base_id": st + r"\.remote_nonce",
+                "tx_packet_base_id": rx_comm("bitand", st + r"\.local_nonce", r"packet_id::MASK"),
+                "rx_packet_base_id": rx_comm("bitand", st + r"\.remote_nonce", r"packet_id::MASK"),
+                "tx_bandwidth_limit": rx_comm("Ord::min", r"cast<u32>\(arg1\.config\.endpoint_config\.max_send_rate\)", st + r"\.remote_max_receive_rate"),
+                "tx_alloc_limit": r"cast<usize>\(" + st + r"\.remote_max_receive_alloc\)", "rx_alloc_limit": r"arg1\.config\.endpoint_config\.max_receive_alloc",
+                "tx_frame_window_size": "MAX_FRAME_WINDOW_SIZE", "rx_frame_window_size": "MAX_FRAME_WINDOW_SIZE",
+                "tx_packet_window_size": "MAX_PACKET_WINDOW_SIZE", "rx_packet_window_size": "MAX_PACKET_WINDOW_SIZE",
+            }
+            for side, got, exp, body in (("client", c, exp_c, R.body(CSA)), ("server", s, exp_s, R.body(ACK))):
+                for k, rx in exp.items():
+                    if not re.fullmatch(rx, got.get(k, "")):
+                        inst.violation(body.path, "Config." + k, "%s builds %s = `%s`; the mirror-image table requires %s" % (side, k, got.get(k), rx))
+            # the server's stored remote_* are the SYN's fields (so the two tables really mirror each other)
+            b = R.body(SYN)
+            for loc, s2 in b.assigns():
+                rv = s2["rv"]
+                if rv["k"] == "agg" and rv.get("adt", "").endswith("PendingState"):
+                    f = {n: show(b.operand_expr(o)) for n, o in zip(rv["fields"], rv["ops"])}
+                    if f.get("remote_max_receive_rate") != "arg3.max_receive_rate" or f.get("remote_max_receive_alloc") != "arg3.max_receive_alloc":
+                        inst.violation(b.path, "PendingState.remote_*", "server stores peer limits %s / %s, not the SYN's fields" % (f.get("remote_max_receive_rate"), f.get("remote_max_receive_alloc")), at=b.span_at(loc))
+            hn = R.body("half_connection::HalfConnection::new")
+            txt = " ".join(show(hn.call_expr(t)) for l, t in hn.calls())
+            for need_ in ("PacketSender::new(arg1.tx_packet_window_size,arg1.tx_packet_base_id,arg1.tx_alloc_limit)", "PacketReceiver::new(arg1.rx_packet_window_size,arg1.rx_packet_base_id,arg1.rx_alloc_limit)",
+                          "FrameQueue::new(arg1.tx_frame_window_size,arg1.tx_frame_window_size,arg1.tx_frame_base_id)", "FrameAckQueue::new(arg1.rx_frame_window_size,arg1.rx_frame_base_id)"):
+                inst.site(hn, None, need_.split("(")[0])
+                if need_ not in txt:
+                    inst.violation(hn.path, need_.split("(")[0], "HalfConnection::new does not wire %s to the matching Config fields" % need_.split("(")[0])
+
+
+
+
+def inst_promotion_guard(cx, iid):
+    R = cx.R
+    with cx.instance(iid, "T1 GUARD", "server: State::Active, Connect and active_clients.push require Pending and nonce_ack == local_nonce", floor=3) as inst:
         b = R.body(ACK)
         sinks = agg_sites(b, r"State::Active") + event_pushes(b, r"Event::Connect") + call_sites(b, "Vec::push", r"arg1\.active_clients")
         if len(sinks) < 3:
@@ -41,6 +93,11 @@ def run(cx):
         st = r"[\w:.@\[\](),]*\.state"
         cx.guard(inst, b, sinks, [[r"is\(%s,Pending\)" % st, eq_rx(st + r"@Pending\.0\.local_nonce", r"arg3\.nonce_ack")]],
                  why="a connection may be established only for the address that returned the server's nonce", checked_before=True)
+
+
+def run(cx):
+    R = cx.R
+    inst_promotion_guard(cx, "C07.a")
     with cx.instance("C07.b", "T7 SHAPE (nonce provenance)", "one random nonce per handshake flows into both the frame and the stored state; echoes go in the right direction", floor=6) as inst:
         b = R.body(SYN)
         rs = call_sites(b, "rand::random")
@@ -167,54 +224,7 @@ def run(cx):
                     inst.site(e, Loc(bb, i), "wire error -> ErrorType::" + v)
         if got != {"Version": "Version", "Config": "Config", "ServerFull": "ServerFull"}:
             inst.violation(e.path, "error mapping", "client maps wire errors as %s, expected the identity on {Version, Config, ServerFull}" % got)
-    with cx.instance("C07.g", "T4 SIBLING (mirror table)", "the half_connection::Config built by client and server are mirror images", floor=2) as inst:
-        lc, c = config_literal(R.body(CSA))
-        ls, s = config_literal(R.body(ACK))
-        if not c or not s:
-            inst.violation("<crate>", "half_connection::Config", "Config literal not found in both handshake handlers (anchor)")
-        else:
-            inst.site(R.body(CSA), lc, "client Config", c)
-            inst.site(R.body(ACK), ls, "server Config", s)
-            st = r"[\w:.@\[\](),]*\.state@Pending\.0"
-            exp_c = {
-                "tx_frame_base_id": r"arg1\.state@Pending\.0\.local_nonce", "rx_frame_base_id": r"arg2\.nonce",
-                "tx_packet_base_id": rx_comm("bitand", r"arg1\.state@Pending\.0\.local_nonce", r"packet_id::MASK"),
-                "rx_packet_base_id": rx_comm("bitand", r"arg2\.nonce", r"packet_id::MASK"),
-                "tx_bandwidth_limit": rx_comm("Ord::min", r"cast<u32>\(arg1\.config\.endpoint_config\.max_send_rate\)", r"arg2\.max_receive_rate"),
-                "tx_alloc_limit": r"cast<usize>\(arg2\.max_receive_alloc\)", "rx_alloc_limit": r"arg1\.config\.endpoint_config\.max_receive_alloc",
-                "tx_frame_window_size": "MAX_FRAME_WINDOW_SIZE", "rx_frame_window_size": "MAX_FRAME_WINDOW_SIZE",
-                "tx_packet_window_size": "MAX_PACKET_WINDOW_SIZE", "rx_packet_window_size": "MAX_PACKET_WINDOW_SIZE",
-            }
-            exp_s = {
-                "tx_frame_base_id": st + r"\.local_nonce", "rx_frame_base_id": st + r"\.remote_nonce",
-                "tx_packet_base_id": rx_comm("bitand", st + r"\.local_nonce", r"packet_id::MASK"),
-                "rx_packet_base_id": rx_comm("bitand", st + r"\.remote_nonce", r"packet_id::MASK"),
-                "tx_bandwidth_limit": rx_comm("Ord::min", r"cast<u32>\(arg1\.config\.endpoint_config\.max_send_rate\)", st + r"\.remote_max_receive_rate"),
-                "tx_alloc_limit": r"cast<usize>\(" + st + r"\.remote_max_receive_alloc\)", "rx_alloc_limit": r"arg1\.config\.endpoint_config\.max_receive_alloc",
-                "tx_frame_window_size": "MAX_FRAME_WINDOW_SIZE", "rx_frame_window_size": "MAX_FRAME_WINDOW_SIZE",
-                "tx_packet_window_size": "MAX_PACKET_WINDOW_SIZE", "rx_packet_window_size": "MAX_PACKET_WINDOW_SIZE",
-            }
-            for side, got, exp, body in (("client", c, exp_c, R.body(CSA)), ("server", s, exp_s, R.body(ACK))):
-                for k, rx in exp.items():
-                    if not re.fullmatch(rx, got.get(k, "")):
-                        inst.violation(body.path, "Config." + k, "%s builds %s = `%s`; the mirror-image table requires %s" % (side, k, got.get(k), rx))
-            # the server's stored remote_* are the SYN's fields (so the two tables really mirror each other)
-            b = R.body(SYN)
-            for loc, s2 in b.assigns():
-                rv = s2["rv"]
-                if rv["k"] == "agg" and rv.get("adt", "").endswith("PendingState"):
-                    f = {n: show(b.operand_expr(o)) for n, o in zip(rv["fields"], rv["ops"])}
-                    if f.get("remote_max_receive_rate") != "arg3.max_receive_rate" or f.get("remote_max_receive_alloc") != "arg3.max_receive_alloc":
-                        inst.violation(b.path, "PendingState.remote_*", "server stores peer limits %s / %s, not the SYN's fields" % (f.get("remote_max_receive_rate"), f.get("remote_max_receive_alloc")), at=b.span_at(loc))
-            hn = R.body("half_connection::HalfConnection::new")
-            txt = " ".join(show(hn.call_expr(t)) for l, t in hn.calls())
-            for need_ in ("PacketSender::new(arg1.tx_packet_window_size,arg1.tx_packet_base_id,arg1.tx_alloc_limit)", "PacketReceiver::new(arg1.rx_packet_window_size,arg1.rx_packet_base_id,arg1.rx_alloc_limit)",
-                          "FrameQueue::new(arg1.tx_frame_window_size,arg1.tx_frame_window_size,arg1.tx_frame_base_id)", "FrameAckQueue::new(arg1.rx_frame_window_size,arg1.rx_frame_base_id)"):
-                inst.site(hn, None, need_.split("(")[0])
-                if need_ not in txt:
-                    inst.violation(hn.path, need_.split("(")[0], "HalfConnection::new does not wire %s to the matching Config fields" % need_.split("(")[0])
-
-
+    inst_config_mirror(cx, "C07.g")
 _run_core = run
 
 
@@ -228,6 +238,10 @@ def run(cx):
     with cx.instance("C07.i", "T7 SHAPE", "SYN / SYN-ACK advertise min(configured limit, u32::MAX) for all three limits", floor=6) as inst:
         advertised_limits(cx, inst, ["max_receive_rate", "max_packet_size", "max_receive_alloc"])
     from props.C16 import error_type_tables
+    from props.shared import removal_implies_fin
+    removal_implies_fin(cx, "C07.k")
+    from props.C17 import timers_scheduled
+    timers_scheduled(cx, "C07.l")
     with cx.instance("C07.j", "T8 TABLE", "the HandshakeErrorType byte tables of writer and reader are inverse; unknown bytes are refused", floor=1) as inst:
         error_type_tables(cx, inst)
 
